@@ -215,6 +215,9 @@ pub enum Fault {
     Write { k: usize },
     /// the writer accepts exactly n bytes overall, then fails
     WriteAfterBytes { n: usize },
+    /// the writer accepts exactly n bytes overall and then reports Ok(0)
+    /// for every further call (a full fixed-size sink such as `&mut [u8]`)
+    WriteFullAfterBytes { n: usize },
 }
 
 #[derive(Clone, Debug, Serialize, Deserialize, PartialEq, Eq, Hash)]
